@@ -77,6 +77,11 @@ func SetFile(path string, content string) {}
 func WitnessList(name string, parts ...string) {}
 func VfsOnly(prefix string) {}
 func FlipOrder(m any) {}
+
+// FlipAllMaps: from here on every range statement of the output printers (package ti/cmd) over
+// a map with more than one entry (local maps included) iterates forward or backward, one
+// schedule variable per executed range statement.
+func FlipAllMaps() {}
 func Thorough() bool { return false }
 
 func CorpusCount() int          { return 0 }
